@@ -22,7 +22,8 @@ package verifharness
 //       cs   = nil | wrong | tm:<chainBlank>:<trustOk>:<trusting>:<unbonding>:<drift>:<height>:<specsNil>:<specHasNil>
 //            | bsc:<epoch>:<chainId>:<height>:<extraLen>:<mixZero>:<uncleOk>:<bloomLen>:<nonceLen>:<diffZero>
 //            | eth:<height>:<gasLimit>:<gasUsed>:<bloomLen>:<diffZero> | tss:<addrOk>
-//       cons = nil | wrong | tm | bsc | eth | tss ;  sig = g (signed, coinbase = signer) | m (signed, other coinbase) | f (garbage)
+//       cons = nil | wrong | tm | bsc | eth | tss | tm:<rootEmpty>:<hashOk>:<tsPositive>  (proposals only; since fafdbf1 ValidateBasic
+//              unpacks the consensus state and runs its ValidateBasic: tendermint checks root / next-validators hash / time stamp) ;  sig = g (signed, coinbase = signer) | m (signed, other coinbase) | f (garbage)
 //       (for a bsc cs the sig field is an INPUT: it says how the header is sealed)
 //   relayer <absOk> <addrOk> <nChains> <nAddrs> <chainsOk>
 //   xgen <nativeOk> <packetOk> <nC> {<EXT idOk> <chain> <cs>}  <nK> {<chain> <k> {<heightZero> <cons> <consValid> <EXT typeMatch>}}
@@ -346,6 +347,19 @@ func (w *c15World) mkCS(tok, sig string) (exported.ClientState, string) {
 }
 
 func c15mkCons(tok string, valid bool) exported.ConsensusState {
+	if f := strings.Split(tok, ":"); len(f) == 4 && f[0] == "tm" { // tm:<rootEmpty>:<hashOk>:<tsPositive>
+		c := &tmtypes.ConsensusState{Timestamp: time.Unix(1700000000, 0).UTC(), Root: []byte("root"), NextValidatorsHash: make([]byte, 32)}
+		if c15b(f[1]) {
+			c.Root = []byte{}
+		}
+		if !c15b(f[2]) {
+			c.NextValidatorsHash = make([]byte, 31)
+		}
+		if !c15b(f[3]) {
+			c.Timestamp = time.Unix(0, 0).UTC()
+		}
+		return c
+	}
 	switch tok {
 	case "tm":
 		c := &tmtypes.ConsensusState{Timestamp: time.Unix(1700000000, 0).UTC(), Root: []byte("root"), NextValidatorsHash: make([]byte, 32)}
